@@ -1,13 +1,13 @@
 \* C30 leg A quick, planners "size" (index-size filter, threshold 3) and "vdown" (vertical-compaction downsample
 \* filter, raw and downsampled group): ranges 1/2/4 on the grid 0..4, <= 3 blocks of length <= 4 with index size 1..2,
-\* <= 1 no-compact mark; cases for the harness: layouts of <= 2 blocks (<= 1 marked) x 4 planner modes
+\* no pre-existing marks in the model (the filters make their own); cases for the harness: layouts of <= 2 blocks (<= 1 marked) x 4 planner modes
 SPECIFICATION Spec
 CONSTANTS Ranges <- R124
           LoNeg = 0
           Hi = 4
           MaxLen = 4
           MaxBlocks = 3
-          MaxNC = 1
+          MaxNC = 0
           MaxTomb = 0
           MaxFailed = 0
           TombVals = {0}
